@@ -140,6 +140,19 @@ def check_count(ctx, fi, br, bk, rep, idxp, z, P=P):
         ctx.unknown(f"{P}.COUNT", site, f"unrecognised selector repetition {t}", key=bk)
         return
     cnt = rep.right if norm(rep.left) == "[self.farg]" else rep.left
+    if norm(cnt) == "self.size":
+        # zip stops at its shortest operand: a repetition of at least the selection's length is enough.  The number of
+        # boxes of the level bounds every slice selection; it does not bound an index list, which may repeat boxes
+        if bk == "slice":
+            ctx.ok(f"{P}.COUNT", site, "slice selection: selector repeated once per box of the level (at least the "
+                                       "selection's length; zip stops at the selection)", key="slice")
+        else:
+            ctx.finding(f"{P}.COUNT", site,
+                        "index-list / mask selection: the selector is repeated once per box of the LEVEL (self.size), and "
+                        "zip stops at its shortest operand: an index list longer than the level (repeated box ids, one id "
+                        "per probe point) is silently cut to self.size results instead of one array per requested box",
+                        key="seq", where=loc(fi, z), semantic=True)
+        return
     if bk == "slice":
         c = cnt
         if isinstance(c, ast.Name) and env.get(c.id) is not None:
